@@ -5,6 +5,7 @@
   generator of Model/Codegen.lean maps equal denotations to equal denotations, for all coefficient rings.
 -/
 import Kingdon.Lemmas.Duality
+import Kingdon.Lemmas.Keys
 namespace Kingdon.C08
 open Finsupp
 variable {α : Type} [CommRing α]
@@ -45,6 +46,11 @@ theorem zero_padding_same_element (x : MV α) (ks : List Nat) :
     | nil => rfl
     | cons k ks ih => simp [ih]
   rw [this, add_zero]
+
+/-- the full 2^d layouts (`asfullmv`, canonical or binary order) denote the same element -/
+theorem full_layout_same_element (c : Cfg) (h : c.admissible = true) (canonical : Bool) (x : MV α)
+    (hk : (keysOf x).Nodup) (hr : ∀ k ∈ keysOf x, k < 2 ^ c.d) : den (asfullmv c canonical x) = den x :=
+  asfullmv_den c (Cfg.adm_of_admissible c h) (binOf_injective_of_admissible c h) canonical x hk hr
 
 /-- non-vacuity: keys (1,2) with values (a,b) and keys (2,4,1) with values (b,0,a) denote the same element -/
 example : den ([(1, (5 : Int)), (2, 7)] : MV Int) = den [(2, 7), (4, 0), (1, 5)] := by
